@@ -1,5 +1,7 @@
 import TieN.AddProofs
 import TieN.ReduceProofs
+import TieN.LoopProofs
+import Tie.Properties
 import DsProofs.Properties.C02Oracle
 /-!
 # TIEN — the code of the 'neighbor' method around the kernels AS IT IS WRITTEN NOW
@@ -21,6 +23,14 @@ distances[:, j], atype).query(target=provenance.units[unit], boundary_with=t1, b
 * `TIEN_reduce`: otherwise the translated reduction returns, array for array, the model's `Kernel.unitReduce` of the rows each unit owns (`idxOfMask` of the query
   with only that unit switched on): per unit and validation point the label and distance of the FIRST row of minimal distance, the null label at `inf` for a unit
   without rows (the F12 clause).
+The tail of `_shapley_neighbor` (`GenN.shapley_neighbor_loop`: from the batch size to `return`; the validation set is the list of its row positions; the distance
+callable, the two element-wise utility methods, the two scoring routines and `get_test_batch_size` are parameters).
+* `TIEN_loop`: the translated loop is the fold over the batch starts `range(0, n_test, batch_size)` of the element-wise sum of the batch terms — each batch scored by
+  the 1-NN map/fork routine iff `k == 1 and provenance.max_conjunctions == 1`, by the decision-diagram routine otherwise (`num_neighbors = k`), weighted by
+  `len(batch) / n_test`; the element-wise utilities are handed the UNSLICED `y_test` (observation F13).
+* `TIEN_one_batch`: with the batch size the translated `get_test_batch_size` computes (= `n_test` for every budget: `TIE_batch_size`) there is exactly one batch, the
+  whole validation set with weight 1, so the tail returns exactly what the selected scoring routine returns for the whole validation set — for every value of
+  `BATCH_DISTANCE_MATRIX_SIZE` (C07's batch clause for the source as written).
 * `TIEN_mapfork`: `compute_shapley_1nn_mapfork` hands exactly those arrays, the utilities and the null scores to the kernel (tied in `Tie/`), with the null label
   `label_utilities.shape[0]`.
 -/
@@ -99,5 +109,26 @@ theorem TIEN_mapfork {β : Type} (kernel : Np.A2 ℤ → Np.A2 ℚ → Np.A2 ℚ
   have h := reduce_eq_model n R nTest util.r pq labels dist ro hR hlab hrect hpq hro
   simp only [Np.shape0]
   rw [h]
+
+theorem TIEN_loop (bsOf : ℤ → ℤ → ℤ) (distance : List ℤ → Np.A2 ℚ) (escore : List ℤ → List ℤ → Np.A2 ℚ) (enull : List ℤ → List ℤ → List ℚ) (maxConj : ℤ)
+    (mapfork : Np.A2 ℚ → Np.A2 ℚ → List ℚ → List ℚ) (sadd : Np.A2 ℚ → Np.A2 ℚ → ℤ → ℤ → List ℚ → List ℚ)
+    (units yTest : List ℤ) (nTrain nTest k nc : ℤ) :
+    GenN.shapley_neighbor_loop bsOf distance escore enull maxConj mapfork sadd units yTest nTrain nTest k nc
+      = (Np.range 0 nTest (bsOf nTrain nTest)).foldl (fun acc start =>
+          List.zipWith (· + ·) acc (batchTerm distance escore enull maxConj mapfork sadd yTest nTest k nc
+            (Np.slice1 (Np.range 0 nTest 1) (some start) (some (start + bsOf nTrain nTest)))))
+          (Np.zeros1 (Np.len1 units)) :=
+  loop_eq_fold bsOf distance escore enull maxConj mapfork sadd units yTest nTrain nTest k nc
+
+/-- the batch size is the TRANSLATED `get_test_batch_size` with any budget `B`: one batch, the scoring routine's own result -/
+theorem TIEN_one_batch (B nTrain nTest : ℕ) (distance : List ℤ → Np.A2 ℚ) (escore : List ℤ → List ℤ → Np.A2 ℚ) (enull : List ℤ → List ℤ → List ℚ) (maxConj : ℤ)
+    (mapfork : Np.A2 ℚ → Np.A2 ℚ → List ℚ → List ℚ) (sadd : Np.A2 ℚ → Np.A2 ℚ → ℤ → ℤ → List ℚ → List ℚ)
+    (units yTest : List ℤ) (k nc : ℤ) (hn : 0 < nTest) (cur : List ℚ)
+    (hcur : cur = (if k = 1 ∧ maxConj = 1 then mapfork (distance (Np.range 0 nTest 1)) (escore (Np.range 0 nTest 1) yTest) (enull (Np.range 0 nTest 1) yTest)
+                   else sadd (distance (Np.range 0 nTest 1)) (escore (Np.range 0 nTest 1) yTest) k nc (enull (Np.range 0 nTest 1) yTest)))
+    (hlen : cur.length = units.length) :
+    GenN.shapley_neighbor_loop (Gen.get_test_batch_size (B : ℤ)) distance escore enull maxConj mapfork sadd units yTest (nTrain : ℤ) (nTest : ℤ) k nc = cur :=
+  loop_single_batch (Gen.get_test_batch_size (B : ℤ)) distance escore enull maxConj mapfork sadd units yTest (nTrain : ℤ) nTest k nc hn
+    (DsProofs.Tie.TIE_batch_size B nTrain nTest) cur hcur hlen
 
 end DsProofs.TieN
